@@ -12,7 +12,10 @@ pub fn gen(r: &mut Rng) -> Value {
     let prefix = mk(r, a);
     let needle = mk(r, b);
     let suffix = mk(r, c);
-    json!({"prefix": prefix, "needle": needle, "suffix": suffix})
+    // an unrelated second text (may be longer than the first, may end inside one of its characters byte-wise)
+    let d = r.below(6);
+    let other = mk(r, d);
+    json!({"prefix": prefix, "needle": needle, "suffix": suffix, "other": other})
 }
 
 pub fn run(input: &Value) -> Option<Value> {
@@ -24,6 +27,8 @@ pub fn run(input: &Value) -> Option<Value> {
         "len = length \"{s}\"\nidx = indexof \"{s}\" \"{n}\"\nlidx = last_indexof \"{s}\" \"{n}\"\nhas = contains \"{s}\" \"{n}\"\nsw = starts_with \"{s}\" \"{p}\"\new = ends_with \"{s}\" \"{x}\"\nplen = length \"{p}\"\n",
         s = s, n = needle, p = prefix, x = suffix
     );
+    let other = input["other"].as_str().unwrap_or("");
+    let script = format!("{}sw2 = starts_with \"{s}\" \"{t}\"\new2 = ends_with \"{s}\" \"{t}\"\nhas2 = contains \"{s}\" \"{t}\"\nsw3 = starts_with \"{t}\" \"{s}\"\new3 = ends_with \"{t}\" \"{s}\"\nidx2 = indexof \"{s}\" \"{t}\"\n", script, s = s, t = other);
     let mut context = Context::new();
     duckscriptsdk::load(&mut context.commands).ok()?;
     let ctx = match runner::run_script(&script, context, None) {
@@ -46,6 +51,14 @@ pub fn run(input: &Value) -> Option<Value> {
     }
     if get("has") != Some(s.contains(needle).to_string()) {
         bad.push(json!({"what": "contains"}));
+    }
+    for (k, want) in [("sw2", s.starts_with(other)), ("ew2", s.ends_with(other)), ("has2", s.contains(other)), ("sw3", other.starts_with(s.as_str())), ("ew3", other.ends_with(s.as_str()))] {
+        if get(k) != Some(want.to_string()) {
+            bad.push(json!({"what": k, "text": s, "other": other, "expected": want, "real": get(k)}));
+        }
+    }
+    if !other.is_empty() && get("idx2") != s.find(other).map(|i| i.to_string()) {
+        bad.push(json!({"what": "indexof (unrelated needle)", "expected": s.find(other), "real": get("idx2")}));
     }
     if !prefix.is_empty() && get("sw") != Some("true".to_string()) {
         bad.push(json!({"what": "starts_with"}));
